@@ -426,6 +426,58 @@ func checkC28(c *Ctx, r *Report) {
 
 	// ---- T4
 	if lm := needFn(m, r, "C28.T4", pkgProxy, "(*proxy).loadMetadata"); lm != nil {
+		// a request that names a topic id is answered through the id filter below: once a non-zero
+		// TopicID was seen in the request, no return hands back Store.Metadata's own result (a lookup
+		// by name, however the names were obtained, answers with whatever topic has that name now —
+		// a different id, or UNKNOWN_TOPIC_OR_PARTITION instead of UNKNOWN_TOPIC_ID)
+		{
+			var direct []*ssa.Return
+			for _, b := range lm.Blocks {
+				ret, ok := b.Instrs[len(b.Instrs)-1].(*ssa.Return)
+				if !ok || len(ret.Results) == 0 {
+					continue
+				}
+				for _, o := range origins(ret.Results[0]) {
+					if c := callOrigin(o); c != nil && strings.HasSuffix(calleeName(&c.Call), "Store).Metadata") {
+						direct = append(direct, ret)
+					}
+				}
+			}
+			nEdges := 0
+			bad := ""
+			for _, b := range lm.Blocks {
+				ifi, ok := b.Instrs[len(b.Instrs)-1].(*ssa.If)
+				if !ok {
+					continue
+				}
+				for si, truth := range []bool{true, false} {
+					l := litOf(ifi.Cond, truth)
+					if l.Op != token.NEQ {
+						continue
+					}
+					_, f1, _, ok1 := fieldOf(l.X)
+					_, f2, _, ok2 := fieldOf(l.Y)
+					if !(ok1 && f1 == "TopicID") && !(ok2 && f2 == "TopicID") {
+						continue
+					}
+					nEdges++
+					for _, ret := range direct {
+						if found, _, path := search(SearchSpec{Start: Loc{b.Succs[si], 0}, Target: func(t ssa.Instruction) bool { return t == ssa.Instruction(ret) }}); found {
+							bad = "after a non-zero topic id was seen (" + blockPos(m, b) + ") the store's by-name answer is returned at " + m.Pos(ret.Pos()) + ": " + renderPath(m, path)
+						}
+					}
+				}
+			}
+			key := "a request by topic id is answered through the id filter"
+			switch {
+			case nEdges == 0:
+				r.unresolved("C28.T4", key, "no test of a requested TopicID against the zero id found")
+			case bad != "":
+				r.viol("C28.T4", key, m.Pos(lm.Pos()), bad)
+			default:
+				r.ok("C28.T4", key, m.Pos(lm.Pos()), fmt.Sprintf("%d id test edge(s), %d direct return(s)", nEdges, len(direct)))
+			}
+		}
 		// the id index holds every cluster topic: the map update keyed by TopicID is reached on every
 		// iteration over the cluster's topics (a topic with an error code keeps its name and code when
 		// it is asked for by id); only a zero id may be left out
